@@ -230,7 +230,7 @@ func (w *world) doQuery(ctx context.Context, q query) {
 			hk, err = hostDerive(q, l1)
 			if err == nil && hk != drkey.Key(kA.key) {
 				r.Fail("c39-served-vs-host", "fast-host:"+ktName[q.kt]+":"+protoClass(q.proto),
-					"%v: fast side served %x, host deriving from the secret value gets %x", q, kA.key, hk)
+					"%v: fast side served %x, host deriving from the secret value gets %x", q, kA.key, [16]byte(hk))
 				return false
 			}
 		}
@@ -293,7 +293,7 @@ func (w *world) doQuery(ctx context.Context, q query) {
 		if drkey.Key(kB.key) != slowKey || !sameEpoch(kB.epoch, slowL1.Epoch) {
 			r.Fail("c39-served-vs-host", "slow-host:"+ktName[q.kt]+":"+protoClass(q.proto),
 				"%v: slow side control service served %x epoch [%d,%d), its host derives %x from the level-1 key of epoch [%d,%d)",
-				q, kB.key, kB.epoch.NotBefore.Unix(), kB.epoch.NotAfter.Unix(), slowKey, slowL1.Epoch.NotBefore.Unix(),
+				q, kB.key, kB.epoch.NotBefore.Unix(), kB.epoch.NotAfter.Unix(), [16]byte(slowKey), slowL1.Epoch.NotBefore.Unix(),
 				slowL1.Epoch.NotAfter.Unix())
 			return false
 		}
@@ -329,7 +329,7 @@ func (w *world) doQuery(ctx context.Context, q query) {
 	if drkey.Key(kA.key) != slowKey {
 		r.Fail("c39-fast-vs-slow", "fast-slow:"+ktName[q.kt]+":"+protoClass(q.proto),
 			"%v epoch [%d,%d): fast side serves %x, slow-side host derives %x from the level-1 key fetched by its AS",
-			q, kA.epoch.NotBefore.Unix(), kA.epoch.NotAfter.Unix(), kA.key, slowKey)
+			q, kA.epoch.NotBefore.Unix(), kA.epoch.NotAfter.Unix(), kA.key, [16]byte(slowKey))
 		return
 	}
 	w.okCmp++
